@@ -1,4 +1,7 @@
 import Proofs.SelectAggregate
+import Proofs.SelectSigned
+import Proofs.SelectSubmit
+import Proofs.SelectOnline
 import Props.C19
 
 /-!
@@ -308,6 +311,70 @@ theorem C20_greedy_history (o : Opts) (hk : 0 < o.kInit) (calls : List GreedyCal
   obtain ⟨hn, losses, hok⟩ := h p.1 (List.of_mem_zip hp).1
   exact ⟨e, by rw [e]; exact C20_greedy_wf o hok hn hk p.1.L0 p.1.L p.1.bags p.1.fuel⟩
 
+/-! ### wave 5: losses of any sign; members of any kind; the online candidates -/
+
+/-- **The greedy selection does not depend on the sign or the origin of the losses**: adding one constant
+`c` — positive, negative, anything — to the loss of the starting ensemble and to the loss of every multiset
+of members changes nothing in what `select` does (same outcome, same final list, for every option
+combination, bootstrap sequence and fuel).  The early-stopping test compares a DIFFERENCE of two losses
+with `eps_tol`.  So the theorems above, which put no hypothesis on `L0` and `L` (all rationals), really
+cover loss functions taking negative values (a negated score, the negative log-likelihood of confident
+accurate members), the value zero and values of both signs: each such run is the run on the shifted,
+non-negative loss. -/
+theorem C20_greedy_shift_invariant (o : Opts) (n : Nat) (order : List Nat) (L0 : List Nat → Rat)
+    (L : List (Nat × Nat) → Rat) (bags : Nat → List Nat) (fuel : Nat) (c : Rat) :
+    greedy o n order (fun s => L0 s + c) (fun uc => L uc + c) bags fuel = greedy o n order L0 L bags fuel :=
+  greedy_shift o n order L0 L bags fuel c
+
+/-- **With early stopping every accepted member gains more than `eps_tol`** — for every rational loss
+(no sign hypothesis) and every `eps_tol`: the returned list is the starting ensemble followed by the
+appended members, and its aggregated loss is at most the loss of the starting ensemble minus
+`eps_tol` per appended member.  (`C20_greedy_no_worse` is the case `eps_tol ≥ 0`.)  In particular a member
+that worsens the aggregate — by however little, and whatever the sign of the current loss — is never
+appended. -/
+theorem C20_greedy_gain (o : Opts) (n : Nat) (order : List Nat) (L0 : List Nat → Rat)
+    (L : List (Nat × Nat) → Rat) (bags : Nat → List Nat) (fuel : Nat)
+    (hes : o.earlyStopping = true)
+    (hInit : L (uniqueCounts n (initSel o order)) ≤ L0 (initSel o order))
+    {sel : List Nat} (h : greedy o n order L0 L bags fuel = .ok sel) :
+    ∃ added, sel = initSel o order ++ added ∧
+      L (uniqueCounts n sel) + (added.length : Rat) * o.epsTol ≤ L0 (initSel o order) := by
+  unfold greedy at h
+  cases he : (initSel o order).isEmpty
+  · simp only [he, Bool.false_eq_true, if_false] at h
+    exact greedyLoop_gain o n L bags hes _ (initSel o order) fuel 0 _ _ sel
+      ⟨[], by simp, hInit, by simp⟩ h
+  · simp [he] at h
+
+/-- **`predictions_from_predictors` returns the members' predictions in the order of the `predictors`
+list whatever kind of object each member is** (`α` arbitrary: in-memory predictors of any class, loaders,
+any mixture of them, in any pattern), from whatever value `start` of the evaluator's job counter (a fresh
+or a reused evaluator), for every order in which the jobs finish. -/
+theorem C20_member_order_any_kind {α : Type} (start : Nat) (members : List α) (gathered : List (Nat × α))
+    (hp : gathered.Perm (submitJobs start members)) : predictionsOf gathered = members := by
+  unfold predictionsOf
+  rw [C20_order (submitJobs start members) gathered (submitJobs_increasing members start) hp]
+  exact submitJobs_payload members start
+
+/-- **The candidate `OnlineSelector.on_done` hands to the selector for a finished job is the job's own
+report**: as many entries as validation targets, the entries `idx` hold exactly the values the job
+reported (rationals: no rounding, truncation or conversion to the targets' type), every other entry is
+masked; and building it does not fail (distinct indexes inside `y`, one value per index). -/
+theorem C20_online_candidate (S : Nat) (idx : List Nat) (vals : List Rat) (hl : vals.length = idx.length)
+    (hv : ∀ i ∈ idx, i < S) (hnd : idx.Nodup) :
+    ∃ cand, onlineCandidate S idx vals = some cand ∧ cand.length = S ∧
+      (∀ p ∈ idx.zip vals, cand[p.1]? = some (some p.2)) ∧
+      (∀ s, s < S → s ∉ idx → cand[s]? = some none) := by
+  have hall : idx.all (fun i => decide (i < S)) = true := by
+    simpa [List.all_eq_true] using hv
+  have hkeys : (idx.zip vals).map (·.1) = idx := by
+    rw [List.map_fst_zip]; omega
+  obtain ⟨h1, h2, h3⟩ := scatter_spec (idx.zip vals) (List.replicate S none)
+    (fun p hp => by simpa using hv p.1 (List.of_mem_zip hp).1) (by rw [hkeys]; exact hnd)
+  refine ⟨_, by simp [onlineCandidate, hl, hall], by simpa using h1, h2, fun s hs hns => ?_⟩
+  rw [h3 s (by rw [hkeys]; exact hns)]
+  simp [hs]
+
 /-! ### non-vacuity and regression witnesses -/
 
 def oDefault : Opts :=
@@ -363,5 +430,29 @@ example : greedyHistory oDefault [⟨1, [0], fun _ => 1, fun _ => 1, fun _ => []
 example : GreedyAnswerOK oDefault 2 (.ok [1, 0, 0]) :=
   Or.inr ⟨[1, 0, 0], rfl, by decide +kernel, by decide +kernel, by decide +kernel, by decide +kernel, by decide +kernel,
     by decide +kernel, by decide +kernel⟩
+
+
+/-- negative losses: two candidates, the start `[0]` has loss `-2`; adding the near-copy `1` gives `-1999/1000`
+(WORSE by `1/1000`, far less than `eps_tol·|loss|`-style slack would allow): the loop stops and returns the
+start.  The same run on the losses shifted by `+2` (start `0`) and by `+10` (all positive) is identical. -/
+def Lneg (uc : List (Nat × Nat)) : Rat := if uc.length = 1 then -2 else -1999 / 1000
+example : greedy { oDefault with kInit := 1, epsTol := 1 / 2 } 2 [0, 1] (fun _ => -2) Lneg (fun _ => []) 10 = .ok [0] := by
+  decide +kernel
+example : greedy { oDefault with kInit := 1, epsTol := 1 / 2 } 2 [0, 1] (fun _ => -2 + 2) (fun uc => Lneg uc + 2)
+    (fun _ => []) 10 = .ok [0] := by decide +kernel
+example : greedy { oDefault with kInit := 1, epsTol := 1 / 2 } 2 [0, 1] (fun _ => -2 + 10) (fun uc => Lneg uc + 10)
+    (fun _ => []) 10 = .ok [0] := by decide +kernel
+/-- … and a member that improves a negative loss by more than `eps_tol` is taken (hypotheses of `C20_greedy_gain`
+met with a non-empty `added`) -/
+example : greedy { oDefault with kInit := 1, k := 2 } 2 [0, 1] (fun _ => -2) (fun uc => if uc.length = 1 then -2 else -3)
+    (fun _ => []) 10 = .ok [0, 1] := by decide +kernel
+/-- members of mixed kinds (`Sum`: an in-memory predictor `inl`, a loader `inr`) on an evaluator whose counter
+is at 7, finishing in the order 2, 0, 1 -/
+example : predictionsOf [(9, (Sum.inl 2 : Sum Nat Nat)), (7, Sum.inl 0), (8, Sum.inr 1)] = [Sum.inl 0, Sum.inr 1, Sum.inl 2] := by
+  decide +kernel
+example : submitJobs 7 [(Sum.inl 0 : Sum Nat Nat), Sum.inr 1, Sum.inl 2] = [(7, Sum.inl 0), (8, Sum.inr 1), (9, Sum.inl 2)] := rfl
+/-- a job that predicted samples 3 and 1 of 4 integer targets with the real values 7/2 and 9/4 -/
+example : onlineCandidate 4 [3, 1] [7 / 2, 9 / 4] = some [none, some (9 / 4), none, some (7 / 2)] := by decide +kernel
+example : onlineCandidate 4 [3, 4] [7 / 2, 9 / 4] = none := by decide +kernel
 
 end DH.Select
